@@ -1,7 +1,7 @@
 """C06 Each Merkle tree back end is observationally equal to the ideal hash tree: 'rejected operations change nothing', the
 bookkeeping formulas (high-water mark, capacity guards) and the node-recomputation shape, per back end."""
 import re
-from ..symex import Engine, show, subterms, contains, known_ok
+from ..symex import Engine, show, subterms, contains, known_ok, known_functions
 from ..lib import *
 from ..facts import MissingAnchor
 from .. import treefx
@@ -877,12 +877,18 @@ def check_subtree_root(ctx, fb):
         if it is None:
             raise MissingAnchor("%s::get_subtree_root" % name)
         ctx.touch(it)
-        eng = Engine(fb, inline=inline_only(r"ZerokitMerkleTree>::(capacity|depth)$|::parent$"))
+        # the tree's own private helpers (parent, or a helper that performs the climb) are evaluated in place, loops included
+        own_helper = lambda i: bool(re.search(r"ZerokitMerkleTree>::(capacity|depth)$|::parent$", i.path)) or (
+            name == "full" and i.kind in ("Fn", "AssocFn") and (i.file or "").endswith("full_merkle_tree.rs") and "ZerokitMerkle" not in i.path
+            and not re.search(r"::(update_nodes|set_range|first_child|levels)$", i.path) and i.path not in known_functions())
+        eng = Engine(fb, inline=own_helper)
         paths = eng.run(it)
         depth = F(P(1), "depth") if name != "pmtree" else ("call", None, None)
+        counted = False
         why = None
         seen = {"root": 0, "leaf": 0, "node": 0, "err": 0}
         carried = {}
+        need_counted = False
         for p in paths:
             cm = cond_map(p)
 
@@ -896,6 +902,13 @@ def check_subtree_root(ctx, fb):
                 # the loop step, by role: the level counter (starts at self.depth) decreases by one, the node index (the other
                 # loop-carried variable) moves to its parent
                 for ph, v in loop_phis(p):
+                    rng = ph[4]
+                    if (isinstance(rng, tuple) and rng and rng[0] == "adt" and str(rng[1]).endswith("ops::Range") and cint(rng[4][0]) == 0
+                            and rng[4][1] == ("bin", "Sub", F(P(1), "depth"), P(2))):
+                        # `for _ in 0..(depth - n)`: the level is counted by the range instead of being compared with n
+                        carried.setdefault("level", set()).add(True)
+                        counted = True
+                        continue
                     if ph[4] == F(P(1), "depth"):
                         carried.setdefault("level", set()).add(v == ("bin", "Sub", ph, mk_const("usize", 1)))
                     elif isinstance(v, tuple) and v and v[0] != "phi":
@@ -946,6 +959,13 @@ def check_subtree_root(ctx, fb):
                     if ix[0] == "unwrap":
                         good = True   # parent(0) = None arm: unreachable for a node below the root; the reachable arm is checked
                         seen["node"] -= 1
+                    elif ix[0] == "phi" and any(a[0] == "ok" and a[1][0] == "call" and a[1][1].endswith("::next") and v2 is False for a, v2 in p.conds()):
+                        # counted form: the node after the range 0..(depth - n) is exhausted; start and step are decided on the loop body
+                        leafnode = ("bin", "Sub", ("bin", "Add", ("bin", "Shl", mk_const("usize", 1), F(P(1), "depth")), P(3)), mk_const("usize", 1))
+                        good = ix[4] == leafnode
+                        need_counted = True
+                        if not good:
+                            why = "the counted climb starts at %s, specification node 2^depth + index - 1" % sh(ix[4], 80)
                     elif phis:
                         ph = phis[0]
                         par = ("bin", "Sub", ("bin", "Shr", ("bin", "Add", ph, mk_const("usize", 1)), mk_const("usize", 1)), mk_const("usize", 1))
@@ -964,6 +984,8 @@ def check_subtree_root(ctx, fb):
                         good = ix == ("bin", "Sub", tot, mk_const("usize", 1))
             if not good and why is None:
                 why = "level n returns %s, specification the node (n, index >> (depth - n)) that covers leaf `index`" % sh(v, 160)
+        if name == "full" and why is None and need_counted and not counted:
+            why = "the result is a loop-carried node but the loop is not `for _ in 0..(depth - n)`"
         if name == "full" and why is None and carried:
             if carried.get("level") != {True} or not carried.get("node") or False in carried.get("node"):
                 why = "the climb's step is not (node -> parent ((i+1)>>1)-1, level -> level - 1): %s" % carried
